@@ -961,8 +961,23 @@ func Abs(env envs.Environment, num *types.XNumber) types.XValue {
 //
 // @function round(number [,places])
 func Round(env envs.Environment, num *types.XNumber, places int) types.XValue {
+	if xerr := checkRoundingPlaces(places); xerr != nil {
+		return xerr
+	}
+
 	return types.NewXNumber(num.Native().Round(int32(places)))
 }
+
+// rounding to an absurd number of places makes a number with that many digits, and places beyond what fits in an
+// int32 wrap around, so places has to be within a sane range
+func checkRoundingPlaces(places int) *types.XError {
+	if places < -maxRoundingPlaces || places > maxRoundingPlaces {
+		return types.NewXErrorf("must take places between -%d and %d, got %d", maxRoundingPlaces, maxRoundingPlaces, places)
+	}
+	return nil
+}
+
+const maxRoundingPlaces = 1000
 
 // RoundUp rounds `number` up to the nearest integer value.
 //
@@ -977,6 +992,10 @@ func Round(env envs.Environment, num *types.XNumber, places int) types.XValue {
 //
 // @function round_up(number [,places])
 func RoundUp(env envs.Environment, num *types.XNumber, places int) types.XValue {
+	if xerr := checkRoundingPlaces(places); xerr != nil {
+		return xerr
+	}
+
 	dec := num.Native()
 	if dec.Round(int32(places)).Equal(dec) {
 		return num
@@ -1001,6 +1020,10 @@ func RoundUp(env envs.Environment, num *types.XNumber, places int) types.XValue 
 //
 // @function round_down(number [,places])
 func RoundDown(env envs.Environment, num *types.XNumber, places int) types.XValue {
+	if xerr := checkRoundingPlaces(places); xerr != nil {
+		return xerr
+	}
+
 	dec := num.Native()
 	if dec.Round(int32(places)).Equal(dec) {
 		return num
